@@ -292,4 +292,144 @@ theorem pinv_step (cfg : Cfg) (s s' : St) (l : Label) (hi : PInv cfg s) (h : ste
 theorem pinv_reachable (cfg : Cfg) (net0 : Net) (s : St) (h : Reachable cfg net0 s) : PInv cfg s :=
   Sched.invariant_of_step (pinv_init cfg net0) (fun s l s' hi hs => pinv_step cfg s s' l hi hs) s h
 
+/-! ### within the retry budget no batch is ever given up -/
+
+theorem send_keeps_dead (tr : Transport) : ∀ (reqs : List Request) (net : Net),
+    (send tr reqs net).2.dead = net.dead := by
+  intro reqs
+  induction reqs with
+  | nil => intro net; rfl
+  | cons r rs ih =>
+    intro net
+    simp only [send]
+    cases ha : attempt tr net r with
+    | mk ok net1 =>
+      have hd : net1.dead = net.dead := by
+        unfold attempt at ha
+        split at ha
+        · cases ha; rfl
+        · split at ha
+          · cases ha; rfl
+          · simp only [Prod.mk.injEq] at ha; obtain ⟨_, rfl⟩ := ha; rfl
+      cases ok with
+      | false => simpa using hd
+      | true => simp only; rw [ih, hd]
+
+/-- The retry budget as a potential: the failures the collector still has in store plus the retries the held batch has
+    already used never exceed the budget — so no batch is ever given up. -/
+structure BInv (cfg : Cfg) (s : St) : Prop where
+  alive : s.net.dead = false
+  noneFailed : s.failed = []
+  nonempty : ∀ reqs, s.cur = some reqs → ∀ r ∈ reqs, r ≠ []
+  budget : s.net.pending cfg.tr + (if s.ch.rx.held.isSome then s.ch.retryCur else 0) ≤ cfg.ch.retryMax
+
+theorem binv_init (cfg : Cfg) (net0 : Net) (hd : net0.dead = false) (hb : net0.pending cfg.tr ≤ cfg.ch.retryMax) :
+    BInv cfg (init net0) :=
+  ⟨hd, rfl, by intro reqs h; simp [init] at h, by simpa [init, Batcher.init, Batcher.Rx.held] using hb⟩
+
+theorem itemsOf_ne_nil {reqs : List Request} (hne : reqs ≠ []) (hall : ∀ r ∈ reqs, r ≠ []) : itemsOf reqs ≠ [] := by
+  cases reqs with
+  | nil => exact absurd rfl hne
+  | cons r rs =>
+    have hr := hall r (by simp)
+    cases r with
+    | nil => exact absurd rfl hr
+    | cons e es => simp [itemsOf]
+
+theorem binv_step (cfg : Cfg) (s s' : St) (l : Label) (hi : BInv cfg s) (h : step cfg s l = some s') :
+    BInv cfg s' := by
+  obtain ⟨j1, j2, j3, j4⟩ := hi
+  cases l with
+  | chan bl =>
+    by_cases hob : ∃ o, bl = .rxOutcome o
+    · obtain ⟨o, rfl⟩ := hob; simp [step] at h
+    by_cases hbg : bl = .rxBegin
+    · subst hbg
+      simp only [step] at h
+      cases hb : Batcher.step cfg.ch s.ch .rxBegin with
+      | none => simp [hb] at h
+      | some ch' =>
+        simp only [hb] at h
+        have hpend : s.net.pending cfg.tr ≤ cfg.ch.retryMax := by
+          split at j4 <;> omega
+        have hfin : (∃ b fw, ch'.rx = .processing b b fw ∧ ch'.retryCur = 0) ∨ ch'.rx.held = none := by
+          step_elim hb
+          all_goals (first | exact .inr rfl | skip)
+          rename_i b fw wasOpen hrx hlen
+          exact .inl ⟨b, fw, rfl, rfl⟩
+        rcases hfin with ⟨b, fw, hrx', hrc⟩ | hnone
+        · simp only [hrx'] at h
+          cases h
+          refine ⟨j1, j2, ?_, by simpa [hrx', Batcher.Rx.held, hrc] using hpend⟩
+          intro reqs hreqs r hr
+          simp only [Option.some.injEq] at hreqs
+          subst hreqs
+          exact (C12.grouping_partitions cfg.limit (b.map cfg.ev)).2.2.1 r hr
+        · have : s' = { s with ch := ch' } := by
+            split at h
+            · rename_i o c0 w0 hp; rw [hp] at hnone; simp [Batcher.Rx.held] at hnone
+            · cases h; rfl
+          subst this
+          exact ⟨j1, j2, j3, by simpa [hnone] using hpend⟩
+    · have hgen : ∃ ch', Batcher.step cfg.ch s.ch bl = some ch' ∧ s' = { s with ch := ch' } := by
+        cases bl
+        case rxOutcome o => exact absurd ⟨o, rfl⟩ hob
+        case rxBegin => exact absurd rfl hbg
+        all_goals
+          simp only [step, Option.map_eq_some_iff] at h
+          obtain ⟨ch', hc, rfl⟩ := h
+          exact ⟨ch', hc, rfl⟩
+      obtain ⟨ch', hc, rfl⟩ := hgen
+      obtain ⟨_, f2⟩ := Batcher.chan_frame cfg.ch s.ch ch' bl (fun o ho => hob ⟨o, ho⟩) hbg hc
+      have f3 := Batcher.chan_frame_retry cfg.ch s.ch ch' bl (fun o ho => hob ⟨o, ho⟩) hbg hc
+      refine ⟨j1, j2, j3, ?_⟩
+      simp only
+      rcases f2 with f2 | f2
+      · rw [f2]; split at j4 <;> simp <;> omega
+      · rw [f2, f3]; exact j4
+  | process =>
+    simp only [step] at h
+    split at h
+    · rename_i orig cu ws reqs hrx hcur
+      have hheld : s.ch.rx.held.isSome = true := by rw [hrx]; rfl
+      simp only [hheld, if_true] at j4
+      cases hob : send cfg.tr reqs s.net with
+      | mk r net' =>
+        have hdead : net'.dead = false := by
+          have := send_keeps_dead cfg.tr reqs s.net
+          rw [hob] at this; simpa [j1] using this
+        obtain ⟨hp1, hp2⟩ := send_pending cfg.tr reqs s.net net' r j1 hob
+        obtain ⟨_, hnr, done, rem, hsplit, _, hretry, _⟩ := send_spec cfg.tr reqs s.net r net' hob
+        simp only [hob] at h
+        cases r with
+        | noRetry => exact absurd rfl hnr
+        | ok =>
+          simp only [Batcher.step, Batcher.rxOutcome, hrx, Batcher.conclude, Option.map_some, Option.some.injEq] at h
+          subst h
+          refine ⟨hdead, j2, (by intro reqs h; cases h), ?_⟩
+          simp only [Batcher.held_afterNotify, Option.isSome_none, Bool.false_eq_true, if_false]
+          omega
+        | retry rem' =>
+          obtain ⟨rfl, hne⟩ := hretry rem' rfl
+          have hp := hp1 rem' rfl
+          have hall : ∀ r ∈ rem', r ≠ [] := fun r hr => j3 reqs hcur r (by rw [hsplit]; exact List.mem_append_right _ hr)
+          have hitems : (itemsOf rem').length > 0 := List.length_pos_iff.mpr (itemsOf_ne_nil hne hall)
+          dsimp only at h
+          simp only [Batcher.step, Batcher.rxOutcome, hrx, Batcher.conclude, hitems, if_true] at h
+          split at h
+          · rename_i hle
+            simp only [Option.map_some, Option.some.injEq] at h
+            subst h
+            refine ⟨hdead, j2, (by intro reqs h; cases h; exact hall), ?_⟩
+            simp only [Batcher.Rx.held, Option.isSome_some, if_true]
+            omega
+          · rename_i hgt
+            exfalso
+            omega
+    · simp at h
+
+theorem binv_reachable (cfg : Cfg) (net0 : Net) (hd : net0.dead = false) (hb : net0.pending cfg.tr ≤ cfg.ch.retryMax)
+    (s : St) (h : Reachable cfg net0 s) : BInv cfg s :=
+  Sched.invariant_of_step (binv_init cfg net0 hd hb) (fun s l s' hi hs => binv_step cfg s s' l hi hs) s h
+
 end EmitModel.OtlpPipe
